@@ -151,8 +151,17 @@ class Execution(object):
             self.main_exc = ex
 
     def run(self):
-        self.sched.spawn("main", self._main)
-        self.result = self.sched.run()
+        # cyclic garbage (earlier Execution objects and their AudioIO, whose __del__ calls close()) must not be
+        # collected inside a managed thread: with line tracing on, the __del__ frames would become scheduling
+        # points in the middle of whatever that thread was doing
+        import gc
+        gc.collect()
+        gc.disable()
+        try:
+            self.sched.spawn("main", self._main)
+            self.result = self.sched.run()
+        finally:
+            gc.enable()
         if self.io is not None:
             # an abandoned run leaves threads registered; AudioIO.__del__ (run by the GC) would call close()
             # on it outside any scheduler and spin on the dead thread list
